@@ -663,6 +663,92 @@ theorem step_iOp_agree (desc : FieldDesc) {s : St α} (hs : StoreOK4 V s) (op : 
         obtain ⟨id', ex⟩ := r
         cases ex <;> exact ⟨rfl, hs.setI a _ (hv2 _ hm)⟩
 
+
+/-! ## all operations -/
+
+omit h in
+/-- every operation except the three raw-data constructors (= `C18Tables.noRaw`) -/
+def noRawOp : Op → Bool
+  | .eCtor _ _ how _ => how != "enc"
+  | .uCtor _ _ how _ => how != "coefs"
+  | .bCtor _ _ how _ => how != "map"
+  | _ => true
+
+omit h in
+theorem eCtor_how_cases (dst f : Nat) (how arg : String) (hne : how ≠ "enc") :
+    elemOpAll (.eCtor dst f how arg) = true ∨
+      (∀ (env : Env α) (s : St α), stepE env s (.eCtor dst f how arg) = none) := by
+  by_cases h1 : elemOpAll (.eCtor dst f how arg) = true
+  · exact Or.inl h1
+  · refine Or.inr fun env s => ?_
+    simp only [elemOpAll, Bool.or_eq_true, beq_iff_eq, not_or] at h1
+    obtain ⟨⟨⟨⟨⟨⟨a1, a2⟩, a3⟩, a4⟩, a5⟩, a6⟩, a7⟩ := h1
+    simp only [stepE, beq_iff_eq, hne, a1, a2, a3, a4, a5, a6, a7, if_false]
+
+theorem step_EUB_agree (desc : FieldDesc) {s : St α} (hs : StoreOK4 V s) (op : Op)
+    (hop : elemOpAll op = true ∨ uOpAll op = true ∨ bOpAll op = true) :
+    step env' desc s op = step env desc s op ∧ StoreOK4 V (step env desc s op).1 := by
+  have key : (step env' desc s op = step env desc s op ∧ StoreOKB V (step env desc s op).1) ∧
+      op.writesI = [] := by
+    rcases hop with hop | hop | hop
+    · refine ⟨step_elemOrUOrB_agree h desc hs.1 op (by unfold elemOrUOrBOp; rw [hop]; rfl), ?_⟩
+      cases op <;> first | rfl | (simp only [elemOpAll, Bool.false_eq_true] at hop)
+    · refine ⟨step_elemOrUOrB_agree h desc hs.1 op
+        (by unfold elemOrUOrBOp; rw [hop, Bool.or_true]; rfl), ?_⟩
+      cases op <;> first | rfl | (simp only [uOpAll, uOp, Bool.false_eq_true] at hop)
+    · refine ⟨step_bOpAll_agree h desc hs.1 op hop, ?_⟩
+      cases op <;> first | rfl | (simp only [bOpAll, bOp, Bool.false_eq_true] at hop)
+  obtain ⟨⟨e, hv⟩, hw⟩ := key
+  refine ⟨e, hv, fun k I hk => ?_⟩
+  rw [(step_frame' env desc s op).ids k (by rw [hw]; exact List.not_mem_nil)] at hk
+  exact hs.2 k I hk
+
+/-- ONE STEP, ANY OPERATION except the raw-data constructors: same store, same reply, the whole
+    store stays valid -/
+theorem step_full_agree (desc : FieldDesc) {s : St α} (hs : StoreOK4 V s) (op : Op)
+    (hop : noRawOp op = true) :
+    step env' desc s op = step env desc s op ∧ StoreOK4 V (step env desc s op).1 := by
+  cases op
+  case eCtor dst f how arg =>
+    simp only [noRawOp, bne_iff_ne, ne_eq] at hop
+    rcases eCtor_how_cases (α := α) dst f how arg hop with h1 | h2
+    · exact step_EUB_agree h desc hs _ (Or.inl h1)
+    · have hu : ∀ (env : Env α), stepU env s (.eCtor dst f how arg) = none := fun _ => rfl
+      have hb : ∀ (env : Env α), stepB env s (.eCtor dst f how arg) = none := fun _ => rfl
+      have e : ∀ env : Env α, step env desc s (.eCtor dst f how arg) = (s, "bad-op") := by
+        intro env
+        simp only [step, h2, hu, hb, stepT]
+      rw [e, e]
+      exact ⟨rfl, hs⟩
+  case uCtor dst r how arg => exact step_EUB_agree h desc hs _ (Or.inr (Or.inl hop))
+  case bCtor dst r how arg => exact step_EUB_agree h desc hs _ (Or.inr (Or.inr hop))
+  case bad l => exact ⟨rfl, hs⟩
+  case iNew => exact step_iOp_agree h desc hs _ rfl
+  case iCopy => exact step_iOp_agree h desc hs _ rfl
+  case iGroebner => exact step_iOp_agree h desc hs _ rfl
+  case iPred => exact step_iOp_agree h desc hs _ rfl
+  case iXform => exact step_iOp_agree h desc hs _ rfl
+  case iGens => exact step_iOp_agree h desc hs _ rfl
+  case iObs => exact step_iOp_agree h desc hs _ rfl
+  all_goals first
+    | exact step_EUB_agree h desc hs _ (Or.inl rfl)
+    | exact step_EUB_agree h desc hs _ (Or.inr (Or.inl rfl))
+    | exact step_EUB_agree h desc hs _ (Or.inr (Or.inr rfl))
+
+theorem runOps_full_agree (desc : FieldDesc) (ops : List Op)
+    (hops : ∀ op ∈ ops, noRawOp op = true) :
+    ∀ {s : St α}, StoreOK4 V s →
+      runOps env' desc s ops = runOps env desc s ops ∧ StoreOK4 V (runOps env desc s ops).1 := by
+  induction ops with
+  | nil => intro s hs; exact ⟨rfl, hs⟩
+  | cons op t ih =>
+    intro s hs
+    obtain ⟨e, hs'⟩ := step_full_agree h desc hs op (hops op List.mem_cons_self)
+    obtain ⟨e2, hs2⟩ := ih (fun o ho => hops o (List.mem_cons_of_mem _ ho)) hs'
+    simp only [runOps]
+    rw [e, e2]
+    exact ⟨rfl, hs2⟩
+
 end StepI
 end Tables
 end Algobra
